@@ -1,5 +1,6 @@
 import FordModel.Proto
 import FordModel.Fs
+import FordModel.FsPages
 namespace Ford
 open Proto Fs
 
@@ -49,11 +50,48 @@ def onLastPage (s : Site) (f : Page → Page) : Site :=
 
 def isOne (s : Str) : Bool := s == ['1']
 
-def step (st : Cfg × Site) (field : Str) : Cfg × Site :=
+def mdOf (args : List Str) : MdMeta :=
+  match args with
+  | ok :: n :: rest =>
+    let k := natOf n
+    { ok := isOne ok, ordered := rest.take k, copy := rest.drop k }
+  | _ => { ok := false }
+
+/-- fields that describe the page tree as input (page directory, what lies on disk, metadata) -/
+def stepPin (pin : PageIn) (tag : Str) (args : List Str) : Option PageIn :=
+  if tag == "pdir".toList then some { pin with pageDir := absPath (args.headD []) }
+  else if tag == "pnode".toList then
+    match args with
+    | p :: k :: rest =>
+      if k == ['d'] then some { pin with nodes := pin.nodes ++ [(absPath p, .dir rest)] }
+      else if k == ['m'] then some { pin with nodes := pin.nodes ++ [(absPath p, .file (some (mdOf rest)))] }
+      else some { pin with nodes := pin.nodes ++ [(absPath p, .file none)] }
+    | _ => some pin
+  else if tag == "plink".toList then
+    match args with
+    | [a, b] => some { pin with links := pin.links ++ [(absPath a, absPath b)] }
+    | _ => some pin
+  else if tag == "pproj".toList then some { pin with projCopy := args }
+  else if tag == "ptree".toList then
+    match args with
+    | loc :: item :: has :: es =>
+      some { pin with trees := pin.trees ++ [((loc, item), if isOne has then some (parseTree es) else none)] }
+    | _ => some pin
+  else none
+
+structure St where
+  c : Cfg := {}
+  s : Site := {}
+  pin : PageIn := {}
+  hasPin : Bool := false
+
+def step0 (st : Cfg × Site) (field : Str) : Cfg × Site :=
   let (c, s) := st
   match parts field with
   | tag :: args =>
-    if tag == "var".toList then ({ c with repaired := args.head? == some "repaired".toList }, s)
+    if tag == "var".toList then
+      ({ c with repaired := args.head? == some "repaired".toList,
+                subGuard := args.drop 1 == ["guard".toList] }, s)
     else if tag == "dir".toList then ({ c with dir := absPath (args.headD []) }, s)
     else if tag == "link".toList then
       match args with
@@ -95,7 +133,7 @@ def step (st : Cfg × Site) (field : Str) : Cfg × Site :=
     else if tag == "srcfile".toList then (c, { s with srcFiles := s.srcFiles ++ [args.headD []] })
     else if tag == "page".toList then
       match args with
-      | [l, n] => (c, { s with pages := s.pages ++ [{ loc := l, stem := n, copies := [], files := [] }] })
+      | [l, n] => (c, { s with pages := s.pages ++ [{ loc := splitSlash l, stem := n, copies := [], files := [] }] })
       | _ => st
     else if tag == "pcopy".toList then
       match args with
@@ -109,7 +147,23 @@ def step (st : Cfg × Site) (field : Str) : Cfg × Site :=
     else st
   | [] => st
 
-def parse (fs : List Str) : Cfg × Site := fs.foldl step ({}, {})
+def step (st : St) (field : Str) : St :=
+  match parts field with
+  | tag :: args =>
+    match stepPin st.pin tag args with
+    | some pin => { st with pin := pin, hasPin := true }
+    | none => let (c, s) := step0 (st.c, st.s) field; { st with c := c, s := s }
+  | [] => st
+
+def parseSt (fs : List Str) : St := fs.foldl step {}
+
+/-- configuration and site; the static pages are those the input page tree gives -/
+def parse (fs : List Str) : Cfg × Site :=
+  let st := parseSt fs
+  (st.c, if st.hasPin then withPages st.c.subGuard (outDir st.c) st.s (some st.pin) else st.s)
+
+def showNode (n : PNode) : Str :=
+  joinSlash n.loc ++ us :: pyStem (pyStem n.name) ++ us :: joinSep rs n.copy ++ us :: joinSep rs n.files
 
 def b01 (b : Bool) : Str := if b then ['1'] else ['0']
 
@@ -132,6 +186,15 @@ def dispatchC19 : List Str → Option (List Str)
         some ("ok".toList :: items.map (fun it =>
           let dst := norm (joinRaw to it)
           b01 (guardAccepts op dst) ++ ' ' :: showPath dst))
+      | _ => some ["bad-request".toList]
+    else if cmd == "c19.pages".toList then
+      -- the page tree of the input, both variants: location, stem, copy_subdir, files of every node
+      let st := parseSt args
+      some ("ok".toList :: (pageTree false st.pin).map showNode ++ ["--".toList] ++ (pageTree true st.pin).map showNode)
+    else if cmd == "c19.relpath".toList then
+      match args with
+      | [p, s] => some ["ok".toList, joinSlash (relpath (splitSlash p) (splitSlash s)),
+                        b01 (relOutside (splitSlash p) (splitSlash s))]
       | _ => some ["bad-request".toList]
     else if cmd == "c19.norm".toList then
       match args with
